@@ -241,7 +241,7 @@ func runDFT(c *eng.Ctx, d dftCfg) {
 			want[i] *= complex(s, 0)
 		}
 		e := maxAbsDiff(have, want)
-		c.Max("max_dft_err_log2_x10"+strings.ReplaceAll(preds, "|", "_"), int64(10*math.Log2(e+1e-300)))
+		c.Max("max_dft_err_over_tolerance_x1e6"+strings.ReplaceAll(preds, "|", "_"), int64(1e6*e/tol))
 		c.Check(e <= tol*math.Max(1, s), "C18|dft.Evaluator.CoeffsToSlots|differs-from-coefficient-model"+preds, func() string {
 			return fmt.Sprintf("max error 2^%.1f > 2^%.1f (%+v)", math.Log2(e), math.Log2(tol), d)
 		})
@@ -266,7 +266,7 @@ func runDFT(c *eng.Ctx, d dftCfg) {
 	}
 	have := decode(back, d.LogSlots)
 	e := maxAbsDiff(have, in)
-	c.Max("max_dft_roundtrip_err_log2_x10"+strings.ReplaceAll(preds, "|", "_"), int64(10*math.Log2(e+1e-300)))
+	c.Max("max_dft_roundtrip_err_over_tolerance_x1e6"+strings.ReplaceAll(preds, "|", "_"), int64(1e6*e/tol))
 	c.Check(e <= tol*math.Max(1, maxAbs(in)), "C18|dft.Evaluator.SlotsToCoeffs-after-CoeffsToSlots|not-identity"+preds, func() string {
 		return fmt.Sprintf("max error 2^%.1f > 2^%.1f (%+v)", math.Log2(e), math.Log2(tol), d)
 	})
